@@ -80,7 +80,7 @@ func (e *lcEnv) providerID() string {
 func VerifC14_Lifecycle() {
 	e := lcSetup()
 	if verifrt.Bound("allFaultKinds", 0, 1) == 0 {
-		e.kc.FaultMax = stubs.FaultOther                 // writes fail with a generic error (conflict / not-found variants: thorough tier)
+		e.kc.FaultMax = stubs.FaultNotFound              // writes fail with a generic error or NotFound (conflicts: thorough tier)
 		e.cp.CreateErrors = []int{stubs.CreateOther} // capacity errors are VerifC14_CapacityErrorsDelete's subject
 	}
 	e.cp.OnCreate = func(nc *v1.NodeClaim) {
